@@ -311,6 +311,16 @@ def check_learned_zone(ctx):
             if knows and (names != [tzid] or c2.get_missing_tzids()):
                 ctx.violation('history', {'provider': pname, 'tzid': tzid},
                               f'the provider knows {tzid} now, but add_missing_timezones left VTIMEZONEs {names}, missing {c2.get_missing_tzids()}')
+            # ... and when the provider is selected again it has forgotten the id: unknown again, stays missing,
+            # gets no VTIMEZONE (whatever was generated for it while it was known)
+            getattr(icalendar, 'use_' + pname)()
+            c3 = Calendar.from_ical(use)
+            if icalendar.timezone.tzp.timezone(tzid) is None:
+                c3.add_missing_timezones()
+                if c3.get_missing_tzids() != {tzid} or c3.timezones:
+                    ctx.violation('history', {'provider': pname, 'tzid': tzid, 'step': 'forgotten'},
+                                  f'after the provider was selected again it does not know {tzid}, yet add_missing_timezones '
+                                  f'left VTIMEZONEs {[t.tz_name for t in c3.timezones]}, missing {c3.get_missing_tzids()}')
         except Exception as e:  # noqa: BLE001
             ctx.violation('history', {'provider': pname, 'tzid': tzid}, f'{type(e).__name__}: {e}')
         finally:
